@@ -558,7 +558,36 @@ def r11_3(ctx, prog, crate):
     _r11_3_precision_cache(ctx, prog, crate)
 
 
+def r11_5(ctx, prog, crate):
+    """Elapsed time is the variant's own conversion over the full range: Timestamp::duration_since only dispatches on the
+    variants - every path is decided by discriminant tests alone and returns OsTimestamp/Instant::duration_since (converted)
+    or TscTimestamp::duration_since of exactly (self, earlier, frequency). A shortcut that compares the two readings first
+    (e.g. by a wrapping, signed distance) answers zero for differences the conversion itself handles."""
+    from lib.patheval import PathEval
+    b = prog.body("time::timestamp::Timestamp::duration_since", crate)
+    if not ctx.anchor("R11.5", "Timestamp::duration_since", 1 if b else 0, 1):
+        return
+    ctx.saw(b)
+    sums = PathEval(b).run()
+    if not ctx.check(bool(sums), "R11.5", ["Timestamp::duration_since", "readable"], "cannot summarise", b.where(0)):
+        return
+    n = 0
+    for sm in sums:
+        other = [a for a, pol in sm.conds if a[0] != "discr"]
+        r = sm.ret
+        if r[0] in ("undef", "never") or r is None:
+            continue
+        n += 1
+        txt = str(r)
+        ok = not other and "duration_since" in txt and ("'arg', 1" in txt and "'arg', 2" in txt)
+        ctx.check(ok, "R11.5", ["Timestamp::duration_since", "pure-dispatch"],
+                  "a path of Timestamp::duration_since is decided by %s and returns %s: expected the variant's own duration_since, "
+                  "chosen by the variants alone" % ([str(a)[:60] for a in other][:2], txt[:80]), b.where(sm.blocks[-1]))
+    ctx.check(n >= 2, "R11.5", ["Timestamp::duration_since", "both-variants"], "returning paths: %d" % n, b.where(0))
+
+
 def run(ctx, prog, crate):
+    r11_5(ctx, prog, crate)
     r11_4(ctx, prog, crate)
     r11_3(ctx, prog, crate)
     r11_1(ctx, prog, crate)
